@@ -15,6 +15,8 @@ for p in $props; do
   echo "$id $p exit=$code $(echo "$out" | grep -E '^memsim' | sed 's/.*runs=/runs=/') $cls"
 done
 cd /repo && git checkout -q -- .
+# never leave a binary built from the patched tree behind
+( cd /verif/sim && cargo build --release --offline >/dev/null 2>&1 )
 for r in $replays; do
   res=$(cd /verif && ./check replay "$r" 2>&1 | head -3 | tr '\n' ' ')
   case "$res" in HELD*) ;; *) echo "$id WITNESS-NOT-CLEAN-ON-UNCHANGED-TREE $r :: $res";; esac
